@@ -384,8 +384,13 @@ Definition marshal (m : msg) : bytes :=
       [36; ch mod 256; (nlen p / 256) mod 256; nlen p mod 256] ++ p
   end.
 
-(* Marshal on a message whose Header field is a nil map: assigning Content-Length panics *)
-Definition marshal_go (nil_header : bool) (m : msg) : option bytes :=
+(* Marshal on a message whose Header field may be a nil map ([nil_header]; the message then carries the
+   empty map).  Since /repo c1d5d94 MarshalSize / MarshalTo allocate the map inside the
+   "len(Body) != 0" branch before writing Content-Length, so a nil Header behaves as the empty one. *)
+Definition marshal_go (nil_header : bool) (m : msg) : option bytes := Some (marshal m).
+
+(* the code before c1d5d94: assigning Content-Length into a nil map panicked (regression witness only) *)
+Definition marshal_go_old (nil_header : bool) (m : msg) : option bytes :=
   match m with
   | Req _ _ _ (_ :: _) | Res _ _ _ (_ :: _) => if nil_header then None else Some (marshal m)
   | _ => Some (marshal m)
@@ -516,7 +521,7 @@ Definition put_rres_list (o : list bytes * bfin) : list N :=
 (* cases:
    1 <stream> <utab>                 -> messages read from the whole stream, then 90 (blocked / end of
                                         stream) | 91 (error) | 77 (panic)
-   2 <nil_header> <msg>              -> 1 <bytes> of Marshal | 77
+   2 <nil_header> <msg>              -> 1 <bytes> of Marshal | 77 (never since c1d5d94)
    3 <k> <chunk>*k <utab>            -> as 1, by the incremental reader fed chunk by chunk
    4 <k> <chunk>*k <n> <plen>*n      -> base64 stream reader: per Read "1 <bytes>", then 0 EOF | 2 error
                                         | 3 still open
